@@ -95,7 +95,8 @@ structure Variant where
   overrideForwards : Bool
   /-- a part without columns has `nrows - len(drop_rows)` rows for numpy / sparse output -/
   emptyHonours : Bool
-  /-- NarwhalsMaterializer restores the (positionally reduced) pandas index on pandas output -/
+  /-- NarwhalsMaterializer restores the (positionally reduced) pandas index on pandas output, and on
+  the native pandas frame that output "narwhals" hands back for pandas-backed data -/
   nwIndex : Bool
   /-- constants: `find_nulls` accepts numpy scalars that derive from neither `int` nor `float`,
   and `drop_rows` hands a scalar (`int`, `float`, `str`, numpy number) back unchanged -/
@@ -219,7 +220,11 @@ inductive Value (ρ : Type) where
   | series (cells : List (Cell ρ))
   /-- 0-d `numpy.ndarray` -/
   | array0 (c : Cell ρ)
-  /-- 1-d `numpy.ndarray` -/
+  /-- 1-d `numpy.ndarray` (any dtype: numbers, strings, Python objects), and pandas' own 1-d arrays
+  without row labels — `pandas.Categorical` and every other `ExtensionArray`, `pandas.Index` —: their
+  `find_nulls` / `drop_rows` overloads do what the ndarray ones do (cell-wise null test; removal by
+  position through a boolean mask, `IndexError` for a position that is not a row), `as_columns`
+  hands them on as they are, `C()` wraps them in a fresh `pandas.Series`, `hashed()` in `numpy.array` -/
   | array1 (cells : List (Cell ρ))
   /-- 2-d `numpy.ndarray` of shape `(nrows, cols.length)` -/
   | array2 (nrows : Nat) (cols : List (List (Cell ρ)))
@@ -529,6 +534,16 @@ def outIndex {L : Type} [DecidableEq L] (v : Variant) (labels : List L) (n : Nat
         | .ok ls => .ok (.labels ls))
     else .ok (.range (n - d.length))  -- placeholder length; fixed up by `combine`
   | .pandas, .arrow => .ok (.range (n - d.length))
+  | .narwhals, .narwhals =>
+    -- output "narwhals" over a pandas frame hands back the NATIVE frame — a pandas frame (or a
+    -- narwhals frame around one): `_restore_pandas_index` puts the labels of the kept rows on it,
+    -- also in the no-columns branch (the rows not in `drop_rows`, not the first `n - len(drop_rows)`)
+    if v.nwIndex then
+      (if d.isEmpty then .ok (.labels labels)
+       else match dropPositional labels d with
+        | .error e => .error e
+        | .ok ls => .ok (.labels ls))
+    else .ok .none
   | _, _ => .ok .none
 
 /-- what `_combine_columns` can make of a column object -/
